@@ -69,6 +69,48 @@ func genIDs(r *rand.Rand, n int) []string {
 	return ids
 }
 
+// genCaseIDs returns n non-empty ids of mixed case that are distinct under ASCII case folding, from each other and
+// from those in avoid: under a case-mapping id interceptor they are n different items whose storage-id order is
+// not the order of their spellings ('B' < '_' < 'a').
+func genCaseIDs(r *rand.Rand, n int, avoid []string) []string {
+	letters := []string{"a", "A", "b", "B", "c", "C", "z", "Z", "_", "-", "/", "0", "é", "É"}
+	seen := map[string]bool{}
+	for _, a := range avoid {
+		seen[asciiLower(a)] = true
+	}
+	var ids []string
+	for len(ids) < n {
+		id := ""
+		for j := 0; j < 1+r.Intn(4); j++ {
+			id += letters[r.Intn(len(letters))]
+		}
+		if len(ids) > 2 && r.Intn(3) == 0 {
+			id = respell(r, ids[r.Intn(len(ids))]) + letters[r.Intn(len(letters))]
+		}
+		if !seen[asciiLower(id)] {
+			seen[asciiLower(id)] = true
+			ids = append(ids, id)
+		}
+	}
+	return ids
+}
+
+// respell changes the case of some ASCII letters of id.
+func respell(r *rand.Rand, id string) string {
+	b := []byte(id)
+	for i, c := range b {
+		if r.Intn(2) == 0 {
+			switch {
+			case 'a' <= c && c <= 'z':
+				b[i] = c - 32
+			case 'A' <= c && c <= 'Z':
+				b[i] = c + 32
+			}
+		}
+	}
+	return string(b)
+}
+
 var pageSizes = []int32{0, 1, 2, 3, 7, 50, 1000, 5000}
 
 func genPageSize(r *rand.Rand) int32 {
